@@ -524,7 +524,11 @@ def _sampling_loop(tree):
     loop = [n for n in ast.walk(f) if isinstance(n, ast.For) and ast.unparse(n.iter) == "range(n_chunks + 1)"]
     ok = chunk is not None and chunk > 0 and all(w in src for w in want_assign) and len(loop) == 1 \
         and any(ast.unparse(st) == "samples = distr.rvs(size=this_chunk)" for st in loop[0].body)
-    return {"chunk_size": chunk, "as_modelled": bool(ok)}
+    # key -> integer -> key around the sampler (Backend.sample_value / sample_key)
+    calls = [ast.unparse(n) for n in ast.walk(f) if isinstance(n, ast.Call)]
+    keys_ok = "xk.append(int(k[::-1], 2))" in calls and "self._int_to_binstr(k, n_qubits, False)" in calls \
+        and not any(c.startswith("self._int_to_binstr(k, n_qubits") and c != "self._int_to_binstr(k, n_qubits, False)" for c in calls)
+    return {"chunk_size": chunk, "as_modelled": bool(ok), "keys_as_modelled": bool(keys_ok)}
 
 
 
@@ -584,6 +588,8 @@ def emit(t):
          "(* sampled part of Backend._statevector_to_frequencies: chunk constant, loop shape = Backend.chunk_sizes *)",
          "Definition sampling_chunk_size : N := %d%%N." % (t.get("sampling", {}).get("chunk_size") or 0),
          "Definition sampling_loop_as_modelled : bool := %s." % _coq_bool(t.get("sampling", {}).get("as_modelled", False)),
+         "(* the sampler's labels are int(k[::-1], 2) and are turned back with _int_to_binstr(k, n_qubits, False) *)",
+         "Definition sampling_keys_as_modelled : bool := %s." % _coq_bool(t.get("sampling", {}).get("keys_as_modelled", False)),
          "Definition sympy_iter_reversed : bool := %s." % _coq_bool(s["iter_reversed"]),
          "Definition sympy_mul_right : bool := %s." % _coq_bool(s["mul_right"]),
          "",
@@ -683,7 +689,7 @@ FALLBACK = {'cirq': {'branches': [(['H', 'S', 'SDAG', 'T', 'X', 'Y', 'Z'], 'CNon
                         'p_gate': [['k1', 'k0'], ['k0', '(cis_z S theta (2)%Z)']]}},
  'cirq_order': 'lsq_first',
  'sympy_order': 'msq_first',
- 'sampling': {'chunk_size': 10000000, 'as_modelled': True}}
+ 'sampling': {'chunk_size': 10000000, 'as_modelled': True, 'keys_as_modelled': True}}
 
 
 if __name__ == "__main__":
